@@ -6,7 +6,7 @@ LEVEL = "proof"
 
 def run(ctx):
     npat = 150 if ctx.quick() else 1500
-    generic.standard(ctx, "Props_C14", "c14", "engines-vs-reference", lists=(), ledger="known/C14.ledger",
+    generic.standard(ctx, "Props_C14", "c14", "engines-vs-reference", lists=(), model=True, ledger="known/C14.ledger",
                      extra_args=["-patterns", npat])
     ctx.coverage["explanation"] = (
         "Coq: the bounded backtracker (all entry points, both modes, any reusable state) equals the reference search; declines exactly "
